@@ -53,6 +53,11 @@ CHECKS.update({
    text="For generated valid multi-file projects, every `const X = {...}` literal of the standalone .graphql.ts text, of the loader JS printer and (every third case) of the real loader ABI output is parsed as JSON, read into the harness model and compared: first definition = the source definition (type, name, variable definitions with defaults and directives, directives, selection tree verbatim), followed by exactly the transitively spread fragments once each; every operation and own fragment has a document.",
    note="only documents that the real check accepts are cases; block strings and coercing literals masked", ref="DESIGN.md §5 C12"),
 })
+CHECKS.update({
+ "C18": dict(cat="fault_enumeration", tech="runtime monitor: the real nitrogql-cli binary over generated projects with 0-3 labelled faults; exit status, stdout/stderr and a before/after snapshot of the directory are checked against the fault list",
+   text="Valid generated projects (1-3 schema files, 1-5 operation files with imports, random output layout and options) receive 0-3 faults: syntax faults in schema or operation files, a type-system rule fault, an operation rule fault (both confirmed by the reference validators) or an import of a missing file. The real binary runs check / generate / check generate in human, json and rdjson format. Checked: exit 0 iff no fault; stdout is one JSON document; at least one fault is located by file/line/column; every located diagnostic names an input file of the right kind, inside the file and (check stage) at a token start; every offending operation file of the reported stage is named; check and failed generate change nothing in the directory; successful generate writes exactly the files it lists, one declaration file per operation file.",
+   note="positions of parse-stage diagnostics are only required to be inside the file; only the first unparsable schema file is demanded (the property speaks of check-stage diagnostics)", ref="DESIGN.md §5 C18"),
+})
 NOT_YET = {}
 
 def main():
